@@ -33,7 +33,8 @@ pub mod util {
     /// SHIM for `eprint_err(code, msg, &dyn Error)`: the error channel is outside this unit
     #[verifier::external_body]
     pub(crate) fn eprint_err<E: VErr>(error_code: ErrorCode, msg: &str, err: &E)
-        requires reportable(error_code)
+        requires
+            reportable(error_code), //@label eprint_err.perm.reportable C19
     { unimplemented!() }
 }
 
@@ -45,10 +46,11 @@ pub mod parameters {
     //@ item src/parameters/cleanup.rs enum Cleanup
     //@ item src/parameters/naming.rs enum Naming
     impl Cleanup {
+        pub open spec fn do_cleanup_spec(&self) -> bool { !(self is Never) }
     //@ fn src/parameters/cleanup.rs impl Cleanup / fn do_cleanup
     //@   ret r
     //@   props C07
-    //@   ens[do_cleanup.post] r == !(self is Never)
+    //@   ens[do_cleanup.post] r == self.do_cleanup_spec()
     }
     impl Naming {
         pub(crate) open spec fn writes_direct_spec(self) -> bool {
@@ -146,7 +148,7 @@ pub mod state {
     };
     use timestamps::{creation_timestamp_of_currentfile, infix_from_timestamp, latest_timestamp_file};
 
-    broadcast use group_aspath, cmp_axioms::group_errorkind_eq, ax_fmt_req_all_path_display, vstd::std_specs::fmt::group_fmt_axioms;
+    broadcast use group_aspath, cmp_axioms::group_errorkind_eq, ax_fmt_req_all_path_display, vstd::std_specs::fmt::group_fmt_axioms, ax_asosstr_str;
 
     //@ item src/writers/file_log_writer/state.rs const CURRENT_INFIX
     //@   rule R6 1
@@ -178,7 +180,7 @@ pub mod state {
     pub(crate) open spec fn open_flags(config: &FileLogWriterConfig) -> OpenFlags {
         OpenFlags { write: true, create: true, append: config.append, truncate: !config.append }
     }
-    pub(crate) open spec fn fresh_wview() -> WView { WView { written: Seq::<u8>::empty(), flushed: 0, flush_calls: 0 } }
+    pub open spec fn fresh_wview() -> WView { WView { written: Seq::<u8>::empty(), flushed: 0, flush_calls: 0 } }
 
     pub ghost enum FmtV { Std, Custom(Seq<char>) }
     pub ghost enum NamingV {
@@ -331,7 +333,8 @@ pub mod state {
         pub closed spec fn cfg(&self) -> FileLogWriterConfig { self.config }
         /// A5: machine arithmetic premises
         pub closed spec fn arith_ok(&self, add: int) -> bool {
-            self.has_rot() ==> {
+            &&& (!self.active() ==> forall|m: std::fs::Metadata| #[trigger] metadata_len(&m) + add <= u64::MAX)
+            &&& self.has_rot() ==> {
                 &&& (self.rot().roll_state.has_size() ==> self.rot().roll_state.cur() + add <= u64::MAX)
                 &&& (self.rot().naming_state is NumbersDirect ==> self.rot().naming_state->NumbersDirect_0 < u32::MAX)
                 &&& (self.rot().naming_state is NumbersRCurrent ==> self.rot().naming_state->NumbersRCurrent_0 < u32::MAX)
@@ -404,6 +407,177 @@ pub mod state {
     //@   req[mount_next.pre.arith] old(self).arith_ok(0)
     //@   ens[mount_next.post] State::mount_post(old(self), force, final(self), r is Ok)
     //@   canary
+
+        /// naming state and infix a logger starts with (C06), from the directory oracles; Err = start-up failed
+        pub closed spec fn start_naming(cfg: &FileLogWriterConfig, naming: Naming) -> Result<(NamingV, Seq<char>), ()> {
+            match naming {
+                Naming::TimestampsDirect => {
+                    let ts = timestamps::latest_ts_spec(cfg, !cfg.append, FmtV::Std);
+                    Ok((NamingV::Ts { ts, cur: None, fmt: FmtV::Std }, timestamps::infix_from_ts_spec(ts, cfg.use_utc, FmtV::Std)))
+                },
+                Naming::Timestamps => match timestamps::ctoc_result(cfg, CURRENT_INFIX@, !cfg.append, None, FmtV::Std) {
+                    Ok(t) => Ok((NamingV::Ts { ts: t, cur: Some(CURRENT_INFIX@), fmt: FmtV::Std }, CURRENT_INFIX@)),
+                    Err(_) => Err(()),
+                },
+                Naming::TimestampsCustomFormat { current_infix: Some(tok), format } =>
+                    match timestamps::ctoc_result(cfg, tok@, !cfg.append, None, FmtV::Custom(format@)) {
+                        Ok(t) => Ok((NamingV::Ts { ts: t, cur: Some(tok@), fmt: FmtV::Custom(format@) }, tok@)),
+                        Err(_) => Err(()),
+                    },
+                Naming::TimestampsCustomFormat { current_infix: None, format } => {
+                    let ts = timestamps::latest_ts_spec(cfg, !cfg.append, FmtV::Custom(format@));
+                    Ok((NamingV::Ts { ts, cur: None, fmt: FmtV::Custom(format@) }, timestamps::infix_from_ts_spec(ts, cfg.use_utc, FmtV::Custom(format@))))
+                },
+                Naming::Numbers => match numbers::index_for_rcurrent_spec(cfg, None, !cfg.append) {
+                    Ok(i) => Ok((NamingV::NumR(i), CURRENT_INFIX@)),
+                    Err(_) => Err(()),
+                },
+                Naming::NumbersDirect => {
+                    let idx: u32 = match numbers::highest_index_spec(&cfg.file_spec) {
+                        None => 0,
+                        Some(h) => if cfg.append { h } else { (h + 1) as u32 },
+                    };
+                    Ok((NamingV::NumD(idx), numbers::number_infix_spec(idx)))
+                },
+            }
+        }
+        /// contract of `initialize_with_rotation`
+        pub closed spec fn init_rot_post(cfg: &FileLogWriterConfig, rc: &RotationConfig, bg: bool, inner: &Inner) -> bool {
+            &&& inner is Active
+            &&& inner->Active_0 is Some
+            &&& match State::start_naming(cfg, rc.naming) {
+                Err(_) => false,
+                Ok((nm, infix)) => {
+                    let rs = inner->Active_0->Some_0;
+                    let p = pathbuf_view(&inner->Active_2);
+                    &&& rs.naming_state.nview() == nm
+                    &&& p == cfg.file_spec.path_spec(Some(infix))
+                    &&& inner->Active_1@ == fresh_wview()
+                    &&& inner->Active_1.src() == src_for(cfg, Some(infix))
+                    &&& rs.roll_state == RollState::seeded(rc.criterion, if cfg.append { metadata_len(&fs_metadata_result(p)->Ok_0) } else { 0 }, p)
+                    &&& rs.cleanup == rc.cleanup
+                    &&& (rs.o_cleanup_thread_handle is Some ==> rc.cleanup.do_cleanup_spec() && bg)
+                    // C07: the start-up cleanup ran with the filter of the active naming state and the scheme's writes_direct
+                    &&& (rc.cleanup.do_cleanup_spec() ==> list_and_cleanup::cleanup_result(None, &rc.cleanup, &cfg.file_spec,
+                            &rs.naming_state.infix_filter_spec(), rc.naming.writes_direct_spec()) is Ok)
+                    &&& (rs.o_cleanup_thread_handle is Some ==> Ok::<list_and_cleanup::CleanupThreadHandle, std::io::Error>(rs.o_cleanup_thread_handle->Some_0)
+                            == list_and_cleanup::cleanup_thread_result(rc.cleanup, cfg.file_spec, &rs.naming_state.infix_filter_spec(), rc.naming.writes_direct_spec()))
+                },
+            }
+        }
+        pub closed spec fn highest_ok(&self) -> bool {
+            numbers::highest_index_spec(&self.config.file_spec) is Some ==> numbers::highest_index_spec(&self.config.file_spec)->Some_0 < u32::MAX - 2
+        }
+
+    //@ fn src/writers/file_log_writer/state.rs impl State / fn initialize_with_rotation
+    //@   ret r
+    //@   props C06,C01,C07
+    //@   req[initialize_with_rotation.pre.arith] self.highest_ok()
+    //@   ens[initialize_with_rotation.post] r is Ok ==> State::init_rot_post(&self.config, rotate_config, cleanup_in_background_thread, &r->Ok_0)
+    //@   ens[initialize_with_rotation.post.err] State::start_naming(&self.config, rotate_config.naming) is Err ==> r is Err
+    //@   canary
+
+        /// contract of `initialize` for a state that was still `Initial` and is `Active` afterwards
+        pub closed spec fn init_post(old: &State, new: &State) -> bool {
+            &&& new.config == old.config
+            &&& old.inner is Initial
+            &&& new.active()
+            &&& new.w() == fresh_wview()
+            &&& match old.inner->Initial_0 {
+                None => !new.has_rot() && new.path() == old.config.file_spec.path_spec(None) && new.wsrc() == src_for(&old.config, None),
+                Some(rc) => State::init_rot_post(&old.config, &rc, old.inner->Initial_1, &new.inner),
+            }
+        }
+    //@ fn src/writers/file_log_writer/state.rs impl State / fn initialize
+    //@   ret r
+    //@   props C06,C01,C19
+    //@   req[initialize.pre.arith] old(self).highest_ok()
+    //@   ens[initialize.post.active] old(self).active() ==> r is Ok && *final(self) == *old(self)
+    //@   ens[initialize.post.err] r is Err ==> *final(self) == *old(self)
+    //@   ens[initialize.post.ok] !old(self).active() && r is Ok ==> State::init_post(old(self), final(self))
+    //@   canary
+
+        /// the write step proper: `write_all(buf)` on the current writer, then size accounting (C01, C08, C19)
+        pub closed spec fn append_post(s1: &State, buf: Seq<u8>, new: &State, ok: bool) -> bool {
+            &&& new.config == s1.config
+            &&& s1.active() && new.active()
+            &&& new.inner->Active_2 == s1.inner->Active_2
+            &&& new.wsrc() == s1.wsrc()
+            &&& new.w().flush_calls == s1.w().flush_calls
+            &&& new.w().flushed >= s1.w().flushed
+            &&& new.has_rot() == s1.has_rot()
+            &&& if ok {
+                    &&& new.w().written == s1.w().written + buf
+                    &&& (s1.has_rot() ==> new.rot() == RotationState { roll_state: s1.roll().plus(buf.len() as u64), ..s1.rot() })
+                } else {
+                    &&& is_prefix(s1.w().written, new.w().written)
+                    &&& is_prefix(new.w().written, s1.w().written + buf)
+                    &&& (s1.has_rot() ==> new.rot() == s1.rot())
+                }
+        }
+        /// contract of `write_buffer(buf)`
+        pub closed spec fn write_post(old: &State, buf: Seq<u8>, new: &State, ok: bool) -> bool {
+            if !old.active() && !new.active() {
+                // start-up failed: nothing happened, the next call tries again (C19)
+                !ok && *new == *old
+            } else {
+                exists|s0: State, s1: State, rot_ok: bool| #![trigger State::mount_post(&s0, false, &s1, rot_ok)] {
+                    &&& (if old.active() { s0 == *old } else { State::init_post(old, &s0) })
+                    &&& State::mount_post(&s0, false, &s1, rot_ok)
+                    &&& State::append_post(&s1, buf, new, ok)
+                }
+            }
+        }
+    //@ fn src/writers/file_log_writer/state.rs impl State / fn write_buffer
+    //@   ret r
+    //@   props C01,C08,C09,C19,C15
+    //@   req[write_buffer.pre.arith] old(self).arith_ok(buf@.len() as int) && old(self).highest_ok()
+    //@   req[write_buffer.pre.report] forall|c: ErrorCode| #[trigger] super::util::reportable(c) <==> c is LogFile
+    //@   ens[write_buffer.post] State::write_post(old(self), buf@, final(self), r is Ok)
+    //@   canary
+
+        pub closed spec fn reopen_frame(&self, o: &State) -> bool {
+            self.config == o.config && self.active() == o.active()
+            && (o.active() ==> self.inner->Active_0 == o.inner->Active_0 && self.inner->Active_2 == o.inner->Active_2)
+        }
+        pub closed spec fn same_writer(&self, o: &State) -> bool { self.writer() == o.writer() }
+        pub closed spec fn shutdown_frame(&self, o: &State) -> bool {
+            self.same_but_writer_view(o) || (o.has_rot() && self.has_rot()
+              && self.config == o.config && self.inner->Active_2 == o.inner->Active_2 && self.wsrc() == o.wsrc()
+              && self.rot().naming_state == o.rot().naming_state && self.rot().roll_state == o.rot().roll_state && self.rot().cleanup == o.rot().cleanup)
+        }
+        pub closed spec fn handle_taken(&self) -> bool { self.has_rot() && self.rot().o_cleanup_thread_handle is None }
+        pub closed spec fn is_new(&self, config: FileLogWriterConfig, o_rc: Option<RotationConfig>, bg: bool) -> bool {
+            self.config == config && self.inner == Inner::Initial(o_rc, bg)
+        }
+        pub open spec fn reopen_flags() -> OpenFlags { OpenFlags { write: false, create: true, append: true, truncate: false } }
+    //@ fn src/writers/file_log_writer/state.rs impl State / fn reopen_outputfile
+    //@   ret r
+    //@   props C18
+    //@   rule R1b 3
+    //@   ens[reopen.post.frame] final(self).reopen_frame(old(self))
+    //@   ens[reopen.post.initial] !old(self).active() ==> r is Ok && *final(self) == *old(self)
+    //@   ens[reopen.post.ok] old(self).active() && r is Ok ==> final(self).w() == fresh_wview()
+    //@       && final(self).wsrc() == (WSrc { path: old(self).path(), flags: State::reopen_flags(), buffered: None })
+    //@   ens[reopen.post.err] old(self).active() && r is Err ==> final(self).same_writer(old(self))
+    //@       || (final(self).w() == fresh_wview() && final(self).wsrc() == (WSrc { path: path_with_extension(old(self).path(), "ShortLivingTempFileForReOpen"@), flags: State::reopen_flags(), buffered: None }))
+    //@   canary
+    //@ fn src/writers/file_log_writer/state.rs impl State / fn shutdown
+    //@   props C04
+    //@   ens[State::shutdown.post.frame] final(self).shutdown_frame(old(self))
+    //@   ens[State::shutdown.post.written] old(self).active() ==> final(self).active() && final(self).w().written == old(self).w().written && final(self).w().flushed >= old(self).w().flushed
+    //@   ens[State::shutdown.post.flush_called] old(self).active() ==> final(self).w().flush_calls == old(self).w().flush_calls + 1
+    //@   ens[State::shutdown.post.handle_taken] old(self).has_rot() ==> final(self).handle_taken()
+    //@   ens[State::shutdown.post.initial] !old(self).active() ==> *final(self) == *old(self)
+    //@   canary
+    //@ fn src/writers/file_log_writer/state.rs impl State / fn new
+    //@   ret r
+    //@   props C06
+    //@   ens[State::new.post] r.is_new(config, o_rotation_config, cleanup_in_background_thread)
+    //@ fn src/writers/file_log_writer/state.rs impl State / fn config
+    //@   ret r
+    //@   props C18
+    //@   ens[State::config.post] *r == self.cfg()
 
     //@ fn src/writers/file_log_writer/state.rs impl State / fn flush
     //@   ret r
